@@ -1,8 +1,85 @@
 import SLModel.Drv.Util
+import SLModel.Drv.Bm25Json
+import SLModel.Core.Sort
 open Lean
 namespace SL.Drv.C10
+open SL.Drv SL.Drv.BJ SL.Bm25 SL.Sort
 
-/-- stub: no model operations for C10 yet -/
-def handle (_req : Json) : Except String Json := .error "C10: not implemented"
+/-- rank of a double under `total_cmp` -/
+def rankF (x : Float) : Int :=
+  let b := x.toBits.toNat
+  if b < 9223372036854775808 then Int.ofNat b else -(Int.ofNat (b - 9223372036854775808)) - 1
+
+def bytes (s : String) : List Nat := s.toUTF8.toList.map (·.toNat)
+
+def docVals (d : Doc) : DocVals :=
+  { kw := d.kw.map fun (k, vs) => (k, vs.map bytes)
+    i64 := d.i64
+    f64 := d.f64.map fun (k, vs) => (k, vs.map rankF) }
+
+def parseSort (kinds : Json) (j : Json) : Except String (Field × Option Bool) := do
+  let f ← getStr j "field"
+  let o := match getStrD j "order" "" with
+    | "asc" => some false
+    | "desc" => some true
+    | _ => none
+  if f == "_score" then return (.score, o)
+  match getStrD kinds f "" with
+  | "kw" => return (.kw f, o)
+  | "i64" => return (.i64 f, o)
+  | "f64" => return (.f64 f, o)
+  | k => throw s!"sort field {f}: unknown kind {k}"
+
+/-- matching documents of one segment with their scores, as `search_segment`/`scan_segment`
+hand them to the sort key builder -/
+def segScores (pr : Params) (p : Bm25.Plan) (needScores : Bool) (dflt : Float) (seg : Seg) :
+    List (Nat × Float) :=
+  if (qualified p).isEmpty then scanScores seg p dflt
+  else
+    let ts := segTerms seg p
+    if ts.isEmpty then []
+    else (candidates ts).filterMap fun d =>
+      if accepts seg p d then
+        (if needScores then (finalScore pr seg p ts d).map fun s => (d, s) else some (d, 0.0))
+      else none
+
+/-- `{"op":"search", …case…, "sort":[{"field":…,"order":…}], "kinds":{…}, "limit":n}` -/
+def handle (req : Json) : Except String Json := do
+  let op ← getStr req "op"
+  match op with
+  | "search" =>
+    let c ← parseCase req
+    let limit ← getNat req "limit"
+    let kinds := req.getObjValD "kinds"
+    let specs ← (getArrD req "sort").toList.mapM (parseSort kinds)
+    let pl := mkPlan specs
+    let custom := c.plan.tree.custom
+    let needScores := pl.usesScore || custom
+    let dflt : Float := if pl.usesScore then 1.0 else 0.0
+    let scored := c.segs.map (segScores c.pr c.plan needScores dflt)
+    let keyed : List (List (Key × Float)) := (enumFrom 0 (c.segs.zip scored)).map fun (si, (seg, sc)) =>
+      sc.map fun (d, s) =>
+        let dv := match seg[d]? with | some doc => docVals doc | none => { kw := [], i64 := [], f64 := [] }
+        (buildKey pl dv (rankF s) si d, s)
+    let segKeys := keyed.map fun l => l.map (·.1)
+    let res := search pl limit segKeys
+    let spec := specSearch Key.lt limit segKeys
+    let total : Nat := (segKeys.map (·.length)).foldl (· + ·) 0
+    let resAll := search pl (total + 1) segKeys
+    let render := fun (ks : List Key) => Json.arr (ks.map fun k =>
+      let id := match c.segs[k.seg]? with
+        | some seg => (match seg[k.doc]? with | some d => d.id | none => "?")
+        | none => "?"
+      let s : Float := match keyed[k.seg]? with
+        | some l => (match l.find? (fun x => x.1.doc == k.doc) with | some x => x.2 | none => 0.0)
+        | none => 0.0
+      Json.mkObj [("id", id), ("score", fl s), ("seg", k.seg), ("doc", k.doc)]).toArray
+    return Json.mkObj [
+      ("hits", render res), ("all", render resAll),
+      ("fast", pl.fast), ("uses_score", pl.usesScore), ("hook", custom),
+      ("eq_spec", decide (res = spec) && decide (resAll = specSearch Key.lt (total + 1) segKeys)),
+      ("shaped", segKeys.all fun l => l.all (Key.shaped pl)),
+      ("matches", total)]
+  | _ => throw s!"C10: unknown op {op}"
 
 end SL.Drv.C10
